@@ -23,7 +23,7 @@ ANCHORS = [
     "stereomolgraph.experimental:JSONHandler._stereo_from_payload",
 ]
 REQUIRED_ANCHORS = ANCHORS
-REQUIRED = ["roundtrips", "has_fleeting_bond", "has_placeholder", "has_none_parity", "has_change", "empty_graph", "scale_cases", "reloads_after_edit", "with_bond_attributes", "colliding_id_graphs"] + [f"desc:{c}" for c in sem.CLASSES]
+REQUIRED = ["roundtrips", "has_fleeting_bond", "has_placeholder", "has_none_parity", "has_change", "empty_graph", "scale_cases", "reloads_after_edit", "with_bond_attributes", "colliding_id_graphs", "base_class_views"] + [f"desc:{c}" for c in sem.CLASSES]
 
 
 def _big_ids(rng, pg):
@@ -59,7 +59,12 @@ def gen_cases(ctx):
         else:
             pg = gen.random_pg(rng, cls, n_range=(1, 12) if ctx.tier == "quick" else (1, 20), alphabet=rng.choice([gen.SMALL, gen.WIDE, tuple(range(1, 119))]), p_none=rng.choice([0, 0.3]), p_stereo=0.8, p_change=0.5, p_role=0.5, one_sided_bond_desc=0.3, max_deg=rng.choice([3, 4, 5, 6, 6]), attrs=(i // 4) % 4 == 1)  # a quarter with further atom / bond attributes (labels, charges, bond orders): not carried by the format, but the atoms and bonds that bear them are
             pg = _big_ids(rng, pg)
-        yield {"cls": cls, "pg": pg_to_json(pg), "bseed": rng.randrange(1 << 30)}
+        case = {"cls": cls, "pg": pg_to_json(pg), "bseed": rng.randrange(1 << 30)}
+        if cls in ("CondensedReactionGraph", "StereoCondensedReactionGraph") and (i // 4) % 10 == 3:
+            # the reaction graph seen through a base class (MolGraph(crg), StereoMolGraph(scrg)): the copy keeps the bonds
+            # of every role, with 'reaction' as an ordinary bond attribute
+            case["view"] = "MolGraph" if cls == "CondensedReactionGraph" or rng.random() < 0.4 else "StereoMolGraph"
+        yield case
     for k, nsz, cls, seed in gen.scale_specs(ctx, rng):
         yield {"cls": cls, "scale": nsz, "gseed": seed, "bseed": seed // 3}
     # descriptors that differ in nothing but two ids with colliding Python hashes (-1 / -2, x / x + 2**61 - 1)
@@ -78,6 +83,21 @@ def gen_cases(ctx):
         yield {"cls": pg["cls"], "pg": pg_to_json(pg), "bseed": rng.randrange(1 << 30), "family": "colliding-ids"}
 
 
+def _only_reaction_attribute_on_base_class(g, h):
+    """mechanism classifier of the recorded finding: g is a MolGraph / StereoMolGraph some of whose bonds carry a
+    'reaction' attribute (the format stores no attributes; the base-class == honours this one), hashes agree, and g
+    with that attribute deleted equals the loaded graph"""
+    if type(g).__name__ not in ("MolGraph", "StereoMolGraph"):
+        return False
+    bonds = [b for b, v in g.bonds_with_attributes.items() if "reaction" in v]
+    if not bonds or hash(g) != hash(h):
+        return False
+    g2 = g.copy()
+    for b in bonds:
+        g2.delete_bond_attribute(*tuple(b), "reaction")
+    return bool(g2 == h) and bool(h == g2)
+
+
 def check_case(ctx, case):
     from stereomolgraph.experimental import JSONHandler
 
@@ -92,6 +112,13 @@ def check_case(ctx, case):
         ctx.case()
         return
     ctx.count(f"via:{via}")
+    if case.get("view"):
+        from ..snapshot import classes
+
+        g = classes()[case["view"]](g)
+        cls = case["view"]
+        pg = snap(g)
+        ctx.count("base_class_views")
     if any(set(v) - {"reaction"} for v in pg["bonds"].values()):
         ctx.count("with_bond_attributes")
     if case.get("family") == "colliding-ids":
@@ -133,7 +160,12 @@ def check_case(ctx, case):
         ctx.violate(f"C15/class-changed/{cls}", f"{cls} came back as {type(h).__name__}", case)
         return
     after = snap(h)
-    diff = sem.pg_diff(before, after, mode="same", attrs=False)
+    want = before
+    if case.get("view"):  # in a base class 'reaction' is an ordinary bond attribute, and the format carries no attributes
+        want = sem.pg_copy(before)
+        for v in want["bonds"].values():
+            v.pop("reaction", None)
+    diff = sem.pg_diff(want, after, mode="same", attrs=False)
     if diff:
         what = diff[0].split(":")[0].split("[")[0].split(" of ")[0]
         ctx.violate(f"C15/lossy/{cls}/{what.replace(' ', '-')}/{fkey}", f"round trip changed the graph: {'; '.join(diff[:3])}", case)
@@ -142,7 +174,10 @@ def check_case(ctx, case):
     if all(d[2] is not None for d in descs):
         try:
             if not (h == g) or hash(h) != hash(g):
-                if not diff:
+                if not diff and _only_reaction_attribute_on_base_class(g, h):
+                    ctx.count("base_class_views_unequal_after_roundtrip")
+                    ctx.violate("C15/not-equal-after-roundtrip/base-class-graph-with-reaction-attribute", f"a {cls} whose bonds carry a 'reaction' attribute (a reaction graph seen through its base class) comes back with identical atoms, bonds, descriptors and hash but compares unequal", case)
+                elif not diff:
                     ctx.violate(f"C15/not-equal-after-roundtrip/{cls}/{fkey}", "views identical but == / hash disagree", case)
         except Exception as e:  # noqa: BLE001
             ctx.violate(f"C15/eq-raises:{type(e).__name__}/{cls}/{fkey}", f"== / hash of the deserialised graph raised {e!r}", case)
@@ -155,7 +190,7 @@ def check_case(ctx, case):
             h.remove_atom(next(iter(pg["atoms"])))
             h2 = JSONHandler.json_deserialize(s)
             ctx.count("reloads_after_edit")
-            d2 = sem.pg_diff(before, snap(h2), mode="same", attrs=False)
+            d2 = sem.pg_diff(want, snap(h2), mode="same", attrs=False)
             if d2 or h2 is h:
                 ctx.violate(f"C15/reload-after-edit-differs/{cls}", f"loading the same JSON text again after editing the first loaded graph: {'same object returned' if h2 is h else d2[0]}", case)
         except Exception as e:  # noqa: BLE001
